@@ -9,6 +9,7 @@ import BppModel.Text.AttrU
 import BppModel.Text.TableU
 import BppModel.Text.Vars
 import BppModel.Text.DistU
+import BppModel.Text.ToIntU
 /-
 Driver for C16 (text and option parsing never crashes, corrupts memory or hangs).
 Stateless: every op carries its inputs (strings hex-escaped, "-" = empty).  The model's answer is
@@ -205,7 +206,7 @@ def step (s : Unit) (op : List String) (impl : Option (List String)) : Unit × S
     match unhex h, char? hd, char? hc with
     | some a, some dec, some sci =>
       let out := showBool (Number.isDecimalNumber dec sci a) ++ " " ++ showBool (Number.isDecimalInteger sci a)
-        ++ " " ++ showR (fun _ => "ok") (toDoubleClass dec sci a) ++ " " ++ showR (fun _ => "ok") (toIntClass sci a)
+        ++ " " ++ showR (fun _ => "ok") (toDoubleClass dec sci a) ++ " " ++ showR (fun _ => "ok") (toIntU sci a)
       (s, out, classVerdict impl)
     | _, _, _ => bad
   | ["tt.resizeR", h, n, hf] =>
